@@ -44,28 +44,43 @@ pub fn cmd(args: &[String]) {
 /// round the counter is preset (to 0, or just below the 32-bit wrap), then all threads are released
 /// together and build `per` messages each; one output line per round.
 pub fn cmd_rounds(args: &[String]) {
+    use std::sync::atomic::{AtomicBool, AtomicUsize, Ordering::SeqCst};
     let out = &args[0];
     let threads: usize = args[1].parse().unwrap();
     let per: usize = args[2].parse().unwrap();
     let rounds: usize = args[3].parse().unwrap();
-    let start_b = std::sync::Arc::new(std::sync::Barrier::new(threads + 1));
-    let end_b = std::sync::Arc::new(std::sync::Barrier::new(threads + 1));
+    // spin barriers (generation counters): the racing threads must reach the counter within nanoseconds of each
+    // other, a futex-based barrier wakes them one by one
+    let go = std::sync::Arc::new(AtomicUsize::new(0));
+    let done = std::sync::Arc::new(AtomicUsize::new(0));
     let results: std::sync::Arc<std::sync::Mutex<Vec<Vec<u32>>>> = std::sync::Arc::new(std::sync::Mutex::new(vec![vec![]; threads]));
-    let stop = std::sync::Arc::new(std::sync::atomic::AtomicBool::new(false));
+    let stop = std::sync::Arc::new(AtomicBool::new(false));
     let mut hs = vec![];
     for t in 0..threads {
-        let (sb, eb, res, stop) = (start_b.clone(), end_b.clone(), results.clone(), stop.clone());
-        hs.push(std::thread::spawn(move || loop {
-            sb.wait();
-            if stop.load(std::sync::atomic::Ordering::SeqCst) {
-                return;
+        let (go, done, res, stop) = (go.clone(), done.clone(), results.clone(), stop.clone());
+        hs.push(std::thread::spawn(move || {
+            let mut gen = 0usize;
+            loop {
+                gen += 1;
+                let mut spins = 0u32;
+                while go.load(SeqCst) < gen {
+                    if stop.load(SeqCst) {
+                        return;
+                    }
+                    spins += 1;
+                    if spins % 4096 == 0 {
+                        std::thread::yield_now();
+                    } else {
+                        std::hint::spin_loop();
+                    }
+                }
+                let mut v = [0u32; 16];
+                for slot in v.iter_mut().take(per) {
+                    *slot = zbus::message::PrimaryHeader::new(zbus::message::Type::Signal, 0).serial_num().get();
+                }
+                res.lock().unwrap()[t] = v[..per].to_vec();
+                done.fetch_add(1, SeqCst);
             }
-            let mut v = Vec::with_capacity(per);
-            for _ in 0..per {
-                v.push(zbus::message::PrimaryHeader::new(zbus::message::Type::Signal, 0).serial_num().get());
-            }
-            res.lock().unwrap()[t] = v;
-            eb.wait();
         }));
     }
     let mut w = std::io::BufWriter::new(std::fs::File::create(out).unwrap());
@@ -73,15 +88,20 @@ pub fn cmd_rounds(args: &[String]) {
     for r in 0..rounds {
         let start = starts[r % starts.len()];
         zbus::message::verif_set_serial_counter(start);
-        start_b.wait();
-        end_b.wait();
+        go.store(r + 1, SeqCst);
+        let mut spins = 0u32;
+        while done.load(SeqCst) < (r + 1) * threads {
+            spins += 1;
+            if spins % 1024 == 0 {
+                std::thread::yield_now();
+            }
+        }
         let res = results.lock().unwrap();
         let tbl: Vec<Vec<Vec<u32>>> = res.iter().map(|v| v.iter().map(|s| vec![s >> 16, s & 0xffff]).collect()).collect();
         writeln!(w, "{}", serde_json::to_string(&json!({"ev":"Serials","id":r,"start_hi":start>>16,"start_lo":start&0xffff,
             "threads":threads,"per":per,"serials":tbl})).unwrap()).unwrap();
     }
-    stop.store(true, std::sync::atomic::Ordering::SeqCst);
-    start_b.wait();
+    stop.store(true, SeqCst);
     for h in hs {
         let _ = h.join();
     }
